@@ -96,6 +96,17 @@ def cases(tier, rnd, widen=False):
         yield f'rnd{k}', text, i
 
 
+def blank_tail_cases(tier, rnd):
+    """(label, text, index): the failure point is a blank and the rest of the text is blank (no line break at the index)"""
+    blanks = [' ', '\t', '  ', ' \t ', '\x0b', '\x0c', '\r', ' \n', '\t\n\n', '   \n ', ' \x1c', '\xa0 ']
+    heads = ['', 'a', 'abc', 'ab\ncd', '\n', 'abc\n', 'a' * 50, 'a' * 100, 'ab\n' + 'c' * 95]
+    k = 0
+    for h in heads:
+        for b in blanks:
+            k += 1
+            yield f'blank{k}', h + b, len(h)
+
+
 def observe_impl(gs, text, index):
     """-> dict of observations on the real implementation"""
     g1, g2, g3 = gs[:3]
@@ -155,63 +166,70 @@ def run(R):
     rnd = random.Random(R.seed)
     gs = (Grammar('start = /[^X]*/'), Grammar('start = /[^X]*/ >> "Y"'), Grammar('start = b/[^X]*/'),
           Grammar('start = b/[^X]*/ >> 0x59'))
+    # the error index holds a BLANK and only blanks follow: still not the end of the input (line, column, excerpt, caret)
+    gs_blank = (Grammar('start = /[a-z\\n]*/'), Grammar('start = /[a-z\\n]*/ >> "Y"'), Grammar('start = b/[a-z\\n]*/'),
+                Grammar('start = b/[a-z\\n]*/ >> 0x59'))
     R.assumptions += [
         'texts are ASCII; code points are modelled as natural numbers',
         'error index on a line-break character is outside the property and not generated',
         'bytes input: only the 3-byte window is modelled, repr() of bytes is Python\'s',
     ]
 
+    def run_batch(gset, batch, judge_req, judge_meta):
+            req = [core.sx(['c09', i, core.codes(t)]) for _, t, i in batch]
+            model = [core.asdict(r) for r in core.run_driver(req)]
+            for (label, text, index), m in zip(batch, model):
+                obs = observe_impl(gset, text, index)
+                key = (len(text), index, text.count('\n'))
+                R.count('sweep' if not label.startswith('rnd') else 'random', key)
+                mlc = m['lc']
+                mex = ''.join(chr(x) for x in m['ex'])
+                mbw = bytes(m['bw']) if all(x < 256 for x in m['bw']) else b''
+                case = {'text': text, 'index': index, 'label': label}
+                if len(R.samples) < 6 and (label.startswith('L100c70') or label.startswith('rnd1')):
+                    R.samples.append({'case': case, 'implementation': obs, 'model': {'lc': mlc, 'excerpt': mex}})
+                for kind in ('partial', 'error'):
+                    o = obs[kind]
+                    if not isinstance(o, dict):
+                        R.disagree('excerpt-' + kind, case, o, {'pos': [index] + list(mlc)})
+                        R.counterexample('excerpt-' + kind, 'no-' + kind + '-error-raised', case,
+                                         'an error located at the index', o)
+                        continue
+                    R.traces += 1
+                    if o['pos'] != [index] + list(mlc) or o['excerpt'] != mex or o['header'] != [str(mlc[0]), str(mlc[1])]:
+                        R.disagree('excerpt-' + kind, case, o, {'pos': [index] + list(mlc), 'excerpt': mex})
+                    # executable SPEC judges the implementation's own output
+                    if o['pos'][0] != index:
+                        R.counterexample('excerpt-' + kind, 'position-index', case, index, o['pos'])
+                    elif o['pos'][1] is None or o['excerpt'] is None:
+                        R.counterexample('excerpt-' + kind, 'line-column-missing', case, 'line/column', o)
+                    else:
+                        judge_req.append(core.sx(['c09judge', index, core.codes(text), [o['pos'][1], o['pos'][2]],
+                                                  core.codes(o['excerpt'])]))
+                        judge_meta.append((kind, case, o))
+                for bkey in ('bytes', 'bytes-error'):
+                    o = obs.get(bkey)
+                    if isinstance(o, dict):
+                        R.traces += 1
+                        # bytes input is a single line: line 1, column index + 1, in the position and in the message
+                        one_line = [index, 1, index + 1]
+                        if o['pos'] != one_line or o['excerpt'] != repr(mbw) or o['header'] != ['1', str(index + 1)]:
+                            R.disagree(bkey, case, o, {'pos': one_line, 'excerpt': repr(mbw)})
+                        want = text.encode('latin-1')[index:index + 1]
+                        if o['pos'][0] != index or '\n' in o['excerpt'] or repr(want)[2:-1] not in o['excerpt']:     # the window is shown as repr(bytes)
+                            R.counterexample(bkey, 'bytes-window', case, 'single-line window containing text[index]', o)
+                        elif o['pos'] != one_line or o['header'] != ['1', str(index + 1)]:
+                            R.counterexample(bkey, 'bytes-single-line', case, {'pos': one_line, 'header': ['1', str(index + 1)]}, o)
+                    elif o is not None:
+                        R.disagree(bkey, case, o, {'pos': index})
+
     def sweep(widen):
         batch = list(cases(R.tier, rnd, widen))
+        judge_req, judge_meta = [], []
+        run_batch(gs, batch, judge_req, judge_meta)
+        run_batch(gs_blank, list(blank_tail_cases(R.tier, rnd)), judge_req, judge_meta)
         # end-of-input ParseError cases
         eoi = [('eoi%d' % k, 'a' * k + ('\n' if k % 3 == 0 else '') + 'b' * (k % 5), None) for k in range(0, 40)]
-        req = [core.sx(['c09', i, core.codes(t)]) for _, t, i in batch]
-        model = [core.asdict(r) for r in core.run_driver(req)]
-        judge_req, judge_meta = [], []
-        for (label, text, index), m in zip(batch, model):
-            obs = observe_impl(gs, text, index)
-            key = (len(text), index, text.count('\n'))
-            R.count('sweep' if not label.startswith('rnd') else 'random', key)
-            mlc = m['lc']
-            mex = ''.join(chr(x) for x in m['ex'])
-            mbw = bytes(m['bw']) if all(x < 256 for x in m['bw']) else b''
-            case = {'text': text, 'index': index, 'label': label}
-            if len(R.samples) < 6 and (label.startswith('L100c70') or label.startswith('rnd1')):
-                R.samples.append({'case': case, 'implementation': obs, 'model': {'lc': mlc, 'excerpt': mex}})
-            for kind in ('partial', 'error'):
-                o = obs[kind]
-                if not isinstance(o, dict):
-                    R.disagree('excerpt-' + kind, case, o, {'pos': [index] + list(mlc)})
-                    R.counterexample('excerpt-' + kind, 'no-' + kind + '-error-raised', case,
-                                     'an error located at the index', o)
-                    continue
-                R.traces += 1
-                if o['pos'] != [index] + list(mlc) or o['excerpt'] != mex or o['header'] != [str(mlc[0]), str(mlc[1])]:
-                    R.disagree('excerpt-' + kind, case, o, {'pos': [index] + list(mlc), 'excerpt': mex})
-                # executable SPEC judges the implementation's own output
-                if o['pos'][0] != index:
-                    R.counterexample('excerpt-' + kind, 'position-index', case, index, o['pos'])
-                elif o['pos'][1] is None or o['excerpt'] is None:
-                    R.counterexample('excerpt-' + kind, 'line-column-missing', case, 'line/column', o)
-                else:
-                    judge_req.append(core.sx(['c09judge', index, core.codes(text), [o['pos'][1], o['pos'][2]],
-                                              core.codes(o['excerpt'])]))
-                    judge_meta.append((kind, case, o))
-            for bkey in ('bytes', 'bytes-error'):
-                o = obs.get(bkey)
-                if isinstance(o, dict):
-                    R.traces += 1
-                    # bytes input is a single line: line 1, column index + 1, in the position and in the message
-                    one_line = [index, 1, index + 1]
-                    if o['pos'] != one_line or o['excerpt'] != repr(mbw) or o['header'] != ['1', str(index + 1)]:
-                        R.disagree(bkey, case, o, {'pos': one_line, 'excerpt': repr(mbw)})
-                    want = text.encode('latin-1')[index:index + 1]
-                    if o['pos'][0] != index or '\n' in o['excerpt'] or want.decode('latin-1') not in o['excerpt']:
-                        R.counterexample(bkey, 'bytes-window', case, 'single-line window containing text[index]', o)
-                    elif o['pos'] != one_line or o['header'] != ['1', str(index + 1)]:
-                        R.counterexample(bkey, 'bytes-single-line', case, {'pos': one_line, 'header': ['1', str(index + 1)]}, o)
-                elif o is not None:
-                    R.disagree(bkey, case, o, {'pos': index})
         for (kind, case, o), j in zip(judge_meta, core.run_driver(judge_req)):
             j = core.asdict(j)
             if j.get('linecol_ok') != 'true':
